@@ -3,6 +3,7 @@
 package tally
 
 import (
+	"sync"
 	"time"
 
 	"github.com/uber-go/tally/v4/internal/verifrt"
@@ -141,4 +142,30 @@ func VerifC10Stopwatch() {
 		}
 	}
 	verifrt.Reach("c10.stopwatch.end")
+}
+
+// VerifC10TimerFirstUse: two goroutines make the first use of one timer name on a
+// reporter-less (test) scope and record; both values must be in the snapshot (every schedule
+// with at most 2 preemptions).
+func VerifC10TimerFirstUse() {
+	ts := NewTestScope("", nil)
+	d1, d2 := verifrt.Int64("dur"), verifrt.Int64("dur")
+	verifrt.Assume(d1 != d2)
+	var wg sync.WaitGroup
+	verifrt.Explore(2)
+	wg.Add(2)
+	go func() { defer wg.Done(); ts.Timer("t").Record(time.Duration(d1)) }()
+	go func() { defer wg.Done(); ts.Timer("t").Record(time.Duration(d2)) }()
+	wg.Wait()
+	verifrt.StopExplore()
+	n1, n2, n := 0, 0, 0
+	for _, e := range ts.Snapshot().Timers() {
+		for _, v := range e.Values() {
+			n++
+			n1 += int(b2i(int64(v) == d1))
+			n2 += int(b2i(int64(v) == d2))
+		}
+	}
+	verifrt.Assert("c10.first-use.every-recorded-value-in-snapshot-once", verifrt.And(n == 2, verifrt.And(n1 == 1, n2 == 1)))
+	verifrt.Reach("c10.first-use.end")
 }
